@@ -7,6 +7,10 @@ from epsrules import common, facts, golden
 f = common.Facts()
 u = facts.load_universe([f.epserde()])
 cur = golden.current(u)
+from epsrules import gen_units
+pw = f.witness("wunits", gen=lambda d: gen_units.generate(d, "quick"))
+uu = facts.load_universe([f.epserde(), pw])
+cur["units_closed"] = golden.closed_units(uu, "wunits")
 cur["_comment"] = "Format v1.1 as wire terms / hash recipes of the built-in impls, extracted from the pinned tree (with the fix: commits) and read by hand against README.md and the statements of C04/C06. A tree whose extracted terms differ has changed the format."
 json.dump(cur, open(golden.SPEC, "w"), indent=1, sort_keys=True, default=list)
 print("written", golden.SPEC)
